@@ -213,9 +213,39 @@ def _twice_case(rng):
     return dict(kind='twice', spec=spec, var=tv['name'], how=rng.choice(['inplace', 'inplace', 'assign']), coords=[])
 
 
+def _extreme_case(rng):
+    """float32 operands near the end of the range and operands that hold unmasked inf / nan, with + - *: a result that is not
+    finite is missing, whatever the operator (oracle only: the model computes in rationals)"""
+    n = rng.randint(2, 5)
+    pool = ['3e38', '-3e38', '1e30', '-1e30', '2', '-1.5', '0', 'inf', '-inf', 'nan', '1e-30']
+    return dict(kind='extreme', n=n, op=rng.choice(['add', 'sub', 'mul', 'add', 'sub', 'mul', 'div']),
+                a=[rng.choice(pool) for _ in range(n)], b=[rng.choice(pool) for _ in range(n)], coords=[])
+
+
+def _reflect_case(rng):
+    """left operand a plain in-memory file, right operand an object of a reader class (opened from netCDF on disk), with
+    different coordinate values and a variable only the left file has: the result follows the LEFT operand (oracle only)"""
+    n = rng.randint(2, 4)
+    return dict(kind='reflect', n=n, op=rng.choice(['add', 'sub', 'mul', 'lt', 'le', 'gt', 'ge', 'eq', 'ne']),
+                a=[rng.randint(0, 9) for _ in range(n)], b=[rng.randint(0, 9) for _ in range(n)], coords=['time'])
+
+
+def _maskvals_case(rng):
+    """the legacy helper mask_vals(f, 'type,value') behind the --mask option, one or two in a row (the second sees variables
+    that are already masked), incl. 'where,<expression over the variables>': oracle only"""
+    n = rng.randint(3, 6)
+    steps = [rng.choice([['greater', rng.randint(4, 8)], ['less', rng.randint(1, 3)], ['equal', rng.randint(0, 9)],
+                         ['where', 'A[:]>%d' % rng.randint(3, 7)], ['where', '(A[:]+B[:])<%d' % rng.randint(3, 9)]])
+             for _ in range(rng.randint(1, 2))]
+    return dict(kind='maskvals', n=n, a=[rng.randint(0, 9) for _ in range(n)], b=[rng.randint(0, 9) for _ in range(n)],
+                premask=[rng.random() < 0.25 for _ in range(n)], steps=steps, coords=[])
+
+
 def gen(rng, tier):
     n = 300 if tier == 'quick' else 10000
-    return [_case(rng) for _ in range(n)] + [_chain_case(rng) for _ in range(n // 6)] + [_twice_case(rng) for _ in range(n // 15)]
+    return [_case(rng) for _ in range(n)] + [_chain_case(rng) for _ in range(n // 6)] + [_twice_case(rng) for _ in range(n // 15)] + \
+        [_extreme_case(rng) for _ in range(n // 10)] + [_maskvals_case(rng) for _ in range(n // 10)] + \
+        [_reflect_case(rng) for _ in range(max(4, n // 30))]
 
 
 def _py(e):
@@ -267,6 +297,64 @@ def _build(spec, coords, early=False):
 def impl(case):
     try:
         with lib.pnc_warnings():
+            if case['kind'] == 'extreme':
+                import PseudoNetCDF as pnc
+                fs = []
+                for vals in (case['a'], case['b']):
+                    f = pnc.PseudoNetCDFFile()
+                    f.createDimension('x', case['n'])
+                    v = f.createVariable('A', 'f', ('x',))
+                    v[:] = np.array([float(x) for x in vals], dtype='f')
+                    fs.append(f)
+                with np.errstate(all='ignore'):
+                    o = {'add': operator.add, 'sub': operator.sub, 'mul': operator.mul, 'div': operator.truediv}[case['op']](fs[0], fs[1])
+                r = o.variables['A'][...]
+                return dict(mask=np.ma.getmaskarray(r).tolist(), data=[repr(float(x)) for x in np.ma.getdata(r).tolist()],
+                            dtype=str(np.ma.getdata(r).dtype))
+            if case['kind'] == 'reflect':
+                import os
+                import PseudoNetCDF as pnc
+                from .. import camx
+                fs = []
+                for i, vals in enumerate((case['a'], case['b'])):
+                    f = pnc.PseudoNetCDFFile()
+                    f.createDimension('time', case['n'])
+                    t = f.createVariable('time', 'd', ('time',))
+                    t[:] = np.arange(case['n']) + 10 * i
+                    v = f.createVariable('A', 'd', ('time',))
+                    v[:] = vals
+                    if i == 0:
+                        w = f.createVariable('ONLYLEFT', 'd', ('time',))
+                        w[:] = 5
+                    f.setCoords(['time'])
+                    fs.append(f)
+                path = os.path.join(camx.tmpdir(), 'c06r_%d_%d.nc' % (os.getpid(), np.random.randint(1 << 30)))
+                fs[1].save(path, format='NETCDF4_CLASSIC', verbose=0).close()
+                right = pnc.pncopen(path, format='netcdf')
+                try:
+                    with np.errstate(all='ignore'):
+                        o = eval('fs[0] %s right' % OPS[case['op']])
+                    return dict(time=np.asarray(o.variables['time'][:], dtype='d').tolist(), names=sorted(o.variables),
+                                A=np.ma.getdata(o.variables['A'][:]).astype('d').tolist())
+                finally:
+                    right.close()
+                    os.remove(path)
+            if case['kind'] == 'maskvals':
+                import PseudoNetCDF as pnc
+                from PseudoNetCDF.core._functions import mask_vals
+                f = pnc.PseudoNetCDFFile()
+                f.createDimension('x', case['n'])
+                va = f.createVariable('A', 'd', ('x',), fill_value=-999.)
+                va[:] = np.ma.masked_array(np.array(case['a'], dtype='d'), mask=case['premask'])
+                vb = f.createVariable('B', 'd', ('x',))
+                vb[:] = np.array(case['b'], dtype='d')
+                for mtype, mval in case['steps']:
+                    f = mask_vals(f, '%s,%s' % (mtype, mval), metakeys=[])
+                out = {}
+                for k in ('A', 'B'):
+                    r = f.variables[k][...]
+                    out[k] = dict(mask=np.ma.getmaskarray(r).tolist(), data=np.ma.getdata(r).astype('d').tolist())
+                return dict(vars=out)
             if case['kind'] == 'twice':
                 f = pfile.build(case['spec'])
                 v = case['var']
@@ -327,6 +415,8 @@ def impl(case):
 
 def to_line(case, res):
     co = '.'.join(case['coords']) or '-'
+    if case['kind'] in ('extreme', 'maskvals', 'reflect'):
+        return 'c06 nop'            # no model question: float32 range / the legacy helper, judged by the oracle
     if case['kind'] == 'twice':
         return 'c06 twice %s %s %s' % (case['how'], case['var'], ' '.join(pfile.encode(case['spec'])))
     if case['kind'] == 'chain':
@@ -361,6 +451,8 @@ def _strip_flags(text):
 
 
 def agree(case, out, res):
+    if case['kind'] in ('extreme', 'maskvals', 'reflect'):
+        return None
     if 'err' in res:
         return None if out.startswith('err') else 'impl raised %s (%s), model %s' % (res['err'], res.get('msg'), out[:80])
     if not out.startswith('ok '):
@@ -424,7 +516,51 @@ def oracle(case, res):
         if case['kind'] == 'binop' and case['op'] == 'pow':
             return None     # integers to negative powers etc. are numpy errors, not generated on purpose
         return 'raised %s %s' % (res['err'], res.get('msg'))
-    got = pfile.parse_obs(res['obs'])
+    got = pfile.parse_obs(res['obs']) if 'obs' in res else None
+    if case['kind'] == 'extreme':
+        a, b = (np.array([float(x) for x in vals], dtype='f') for vals in (case['a'], case['b']))
+        with np.errstate(all='ignore'):
+            want = {'add': operator.add, 'sub': operator.sub, 'mul': operator.mul, 'div': operator.truediv}[case['op']](a, b)
+        for i in range(case['n']):
+            if bool(res['mask'][i]) != (not np.isfinite(want[i])):
+                return 'float32 %s %s %s = %r: the cell is %s' % (case['a'][i], OPS[case['op']], case['b'][i], float(want[i]),
+                                                                 'missing' if res['mask'][i] else 'presented as a value (%s)' % res['data'][i])
+            if np.isfinite(want[i]) and float(res['data'][i]) != float(want[i]):
+                return 'float32 %s %s %s = %r, the file has %s' % (case['a'][i], OPS[case['op']], case['b'][i], float(want[i]), res['data'][i])
+        return None
+    if case['kind'] == 'reflect':
+        a, b = np.array(case['a'], dtype='d'), np.array(case['b'], dtype='d')
+        want = eval('a %s b' % OPS[case['op']]).astype('d').tolist()
+        bad = []
+        if res['time'] != list(map(float, range(case['n']))):
+            bad.append('coordinate time is %s, the left operand has %s' % (res['time'], list(range(case['n']))))
+        if 'ONLYLEFT' not in res['names']:
+            bad.append('the variable only the left operand has is gone')
+        if res['A'] != want:
+            bad.append('A is %s, expected %s' % (res['A'], want))
+        if bad:
+            return 'plain file %s reader-class file: %s' % (OPS[case['op']], '; '.join(bad))
+        return None
+    if case['kind'] == 'maskvals':
+        A = np.ma.masked_array(np.array(case['a'], dtype='d'), mask=case['premask'])
+        B = np.ma.masked_array(np.array(case['b'], dtype='d'), mask=False)
+        cur = dict(A=A, B=B)
+        for mtype, mval in case['steps']:
+            if mtype == 'where':
+                cond = np.ma.filled(eval(mval, dict(np=np), dict(cur)), True)    # a condition over a missing cell hides the cell
+                cur = {k: np.ma.masked_array(np.ma.getdata(v), mask=np.ma.getmaskarray(v) | cond) for k, v in cur.items()}
+            else:
+                fn = {'greater': np.greater, 'less': np.less, 'equal': np.equal}[mtype]
+                cur = {k: np.ma.masked_array(np.ma.getdata(v), mask=np.ma.getmaskarray(v) | fn(np.ma.getdata(v), mval))
+                       for k, v in cur.items()}
+        for k in ('A', 'B'):
+            wm = np.ma.getmaskarray(cur[k]).tolist()
+            if res['vars'][k]['mask'] != wm:
+                return 'mask_vals %s: variable %s is missing at %s, the predicates (and the cells missing before) give %s' % (
+                    case['steps'], k, res['vars'][k]['mask'], wm)
+            if any(not m and x != y for m, x, y in zip(wm, res['vars'][k]['data'], np.ma.getdata(cur[k]).tolist())):
+                return 'mask_vals %s: unmasked values of %s changed' % (case['steps'], k)
+        return None
     if case['kind'] == 'twice':
         v = next(x for x in case['spec']['vars'] if x['name'] == case['var'])
         a = np.ma.masked_array(_np(case['spec'], v))
@@ -532,7 +668,16 @@ def _first_var(e):
     return _first_var(e[2]) or _first_var(e[3])
 
 
+KEY_REFLECT = 'C06/comparison/right-operand-of-a-reader-class'
+
+
 def classify(case, failure, model_out):
+    # python evaluates `left > right` through right.__lt__(left) when right's class derives from left's: the values are
+    # right, coordinates and left-only variables follow the RIGHT operand (recorded finding) - comparisons only, and only
+    # with exactly these two symptoms
+    if case['kind'] == 'reflect' and case['op'] in ('lt', 'le', 'gt', 'ge', 'eq', 'ne') and failure.startswith('plain file') and \
+            'coordinate time is' in failure and 'the variable only the left operand has is gone' in failure and 'A is' not in failure:
+        return KEY_REFLECT
     return None
 
 
@@ -549,7 +694,7 @@ def _all_vars(e):
 
 
 def witnesses():
-    return []
+    return [(KEY_REFLECT, dict(kind='reflect', n=3, op='gt', a=[1, 5, 3], b=[2, 2, 2], coords=['time']))]
 
 
 def nontrivial(case, res):
